@@ -115,15 +115,16 @@ Example C13_example_run :
               s_lstate := c_hotRestartState; s_state := c_hotRestartState;
               s_streams := [(5, c_streamOpened)]; s_queue := [{| qe_id := 9; qe_status := 0; qe_data := [1; 2] |}] |} in
   let bytes := hdr 19 2 c_typeFallbackData ++ [0; 0; 0; 3; 0; 0; 0; 0] ++ [10; 11; 12]     (* new stream 3, 3 bytes *)
-               ++ hdr 8 2 c_typePolling                                                       (* drains the queue *)
+               ++ hdr 8 2 c_typePolling                                                       (* finds the queue empty *)
                ++ hdr 12 3 c_typeStreamClose ++ [0; 0; 0; 5]                                  (* half-closes stream 5 *)
                ++ hdr 16 2 c_typeHotRestartAck ++ [0; 0; 0; 0; 0; 0; 0; 7]                    (* matching ack *)
                ++ [0; 0; 0] in                                                                (* start of a next event *)
   let f := feed s [] [firstn 5 bytes; firstn 20 (skipn 5 bytes); skipn 25 bytes] in
   f_outcome f = Ok /\
-  f_actions f = [AFallback 3 0 3; ANewStream 3; AData 3 true [10; 11; 12]; APoll; ANewStream 9; AData 9 false [1; 2];
+  (* the fallback-data handler drains the receive queue before it delivers its own payload *)
+  f_actions f = [AFallback 3 0 3; ANewStream 9; AData 9 false [1; 2]; ANewStream 3; AData 3 true [10; 11; 12]; APoll;
                  AHalfClose 5; AHotRestartAck 7 true] /\
   f_pending f = [0; 0; 0] /\
-  s_streams (f_sess f) = [(5, c_streamHalfClosed); (3, c_streamOpened); (9, c_streamOpened)] /\
+  s_streams (f_sess f) = [(5, c_streamHalfClosed); (9, c_streamOpened); (3, c_streamOpened)] /\
   s_state (f_sess f) = c_hotRestartDoneState.
 Proof. vm_compute. repeat split. Qed.
